@@ -323,13 +323,17 @@ RUpdate(B, O, s) ==
         \o " = " \o RExpr(B, O, s.values[i].e)])
   \o Opt1(B # "mysql" /\ Len(s.from) > 0, " FROM " \o Sep([i \in DOMAIN s.from |-> RTableRef(B, O, s.from[i])]))
   \o Opt1(~myJoin, RHolder(B, O, "WHERE", s.where))
-  \o ROrders(B, O, s.orders) \o RLimit(B, O, s.limit) \o RReturning(B, O, s.returning)
+  \o (IF B = "sqlite" THEN RReturning(B, O, s.returning) ELSE "")         \* returning_precedes_order_by
+  \o ROrders(B, O, s.orders) \o RLimit(B, O, s.limit)
+  \o (IF B = "sqlite" THEN "" ELSE RReturning(B, O, s.returning))
 
 RDelete(B, O, s) ==
   (IF IsNone(s.with) THEN "" ELSE RWith(B, O, s.with))
   \o "DELETE " \o (IF IsNone(s.table) THEN "" ELSE "FROM " \o TableName(B, s.table.v))
   \o RHolder(B, O, "WHERE", s.where)
-  \o ROrders(B, O, s.orders) \o RLimit(B, O, s.limit) \o RReturning(B, O, s.returning)
+  \o (IF B = "sqlite" THEN RReturning(B, O, s.returning) ELSE "")
+  \o ROrders(B, O, s.orders) \o RLimit(B, O, s.limit)
+  \o (IF B = "sqlite" THEN "" ELSE RReturning(B, O, s.returning))
 
 RStmt(B, O, s) ==
   CASE s.kind = "select" -> RSelect(B, O, s) [] s.kind = "insert" -> RInsert(B, O, s)
